@@ -34,9 +34,9 @@ ran.append({"cmd": "pytest (with change)", "result": t.stdout.strip()})
 tests_ok = "55 passed" in t.stdout
 d1 = sh(f"cd {wt} && {PY} demo.py", env=env)
 ran.append({"cmd": "demo.py with change", "exit": d1.returncode, "tail": d1.stdout[-300:]})
-sh(f"git -C {wt} stash")
+sh(f"git -C {wt} apply -R {out/'patch.diff'}")  # not `git stash`: the stash is shared by all worktrees
 d0 = sh(f"cd {wt} && {PY} demo.py", env=env)
-sh(f"git -C {wt} stash pop")
+sh(f"git -C {wt} apply {out/'patch.diff'}")
 ran.append({"cmd": "demo.py without change", "exit": d0.returncode})
 demo_ok = d1.returncode != 0 and d0.returncode == 0
 verdicts = {}
